@@ -433,13 +433,17 @@ func (r *runner) conserve(after string, stepKind string) {
 				}
 			}
 		}
-		otherKey := map[string]string{"a": "b", "b": "a"}[key[:1]] + "|" + hx
-		_, ackedOnOther := r.acked[otherKey]
+		otherBk := map[string]string{"a": "b", "b": "a"}[key[:1]]
+		mech := r.otherNamespaceWriteback(key[:1], hx)
 		switch {
-		case ackedOnOther && r.bes[otherKey[:1]].has(hx, b.content) && r.flagSeen[hx]:
-			// the same digest was also committed under a namespace of the other backend and
-			// that write-back succeeded: its executor cleared the (per file) persist flag
+		case len(mech) > 0 && r.bes[otherBk].has(hx, b.content):
+			// the origin's own log shows, in this order: the commit for a namespace of THIS
+			// backend starting its write-back (it sets the persist flag right after that
+			// line), then a write-back of the same digest for a namespace of the OTHER
+			// backend completing (the executor clears the per-file flag right before that
+			// line) - and the other backend indeed has the bytes
 			class = "persist-flag-cleared-by-writeback-for-other-namespace"
+			quotes = mech
 		case len(quotes) > 0:
 			// the executor dropped the task (and cleared the persist flag) claiming the
 			// file was missing at a time after which the parent still found it on disk
@@ -477,6 +481,67 @@ func (r *runner) conserve(after string, stepKind string) {
 		}
 	}
 	r.run.Count("conservation_checks", 1)
+}
+
+// otherNamespaceWriteback looks in the origin's log files for the mechanism of
+// the known per-file persist flag defect: a "Starting write-back process" line
+// for digest hx under a namespace of backend bk, followed later by a
+// "Successfully completed writeback task" line for hx under a namespace of the
+// other backend. It returns the two lines, or nil.
+func (r *runner) otherNamespaceWriteback(bk, hx string) []string {
+	type rec struct {
+		TS        float64 `json:"ts"`
+		Msg       string  `json:"msg"`
+		Namespace string  `json:"namespace"`
+		Digest    string  `json:"digest"`
+		Name      string  `json:"name"`
+	}
+	type file struct {
+		first float64
+		lines []string
+		recs  []rec
+	}
+	var files []file
+	ls, _ := filepath.Glob(filepath.Join(r.dir, "origin-errors.*.log"))
+	for _, lf := range ls {
+		lb, _ := os.ReadFile(lf)
+		var f file
+		for _, line := range strings.Split(string(lb), "\n") {
+			if !strings.Contains(line, hx) {
+				continue
+			}
+			var x rec
+			if json.Unmarshal([]byte(line), &x) != nil || x.TS == 0 {
+				continue
+			}
+			if f.first == 0 {
+				f.first = x.TS
+			}
+			f.lines = append(f.lines, line)
+			f.recs = append(f.recs, x)
+		}
+		if len(f.recs) > 0 {
+			files = append(files, f)
+		}
+	}
+	sort.Slice(files, func(i, j int) bool { return files[i].first < files[j].first }) // process lives do not overlap
+	// the completion must come after the LAST commit of this backend's namespaces
+	// (a later commit sets the flag again)
+	start, done := "", ""
+	for _, f := range files {
+		for i, x := range f.recs {
+			switch {
+			case x.Msg == "Starting write-back process" && x.Digest == hx && backendOf(x.Namespace) == bk:
+				start, done = f.lines[i], ""
+			case x.Msg == "Successfully completed writeback task" && x.Name == hx && backendOf(x.Namespace) != bk && start != "" && done == "":
+				done = f.lines[i]
+			}
+		}
+	}
+	if start != "" && done != "" {
+		return []string{start, done}
+	}
+	return nil
 }
 
 // checkTasks runs at restart points (origin dead): every acknowledged digest
